@@ -46,7 +46,7 @@ ok = True
 m = json.load(open('MANIFEST.json'))
 try:
     jsonschema.validate(m, json.load(open('/root/.vp/MANIFEST.schema.json')))
-    print("   MANIFEST.json valid; claimed:", len(m.get('properties', m.get('claims', []))))
+    print("   MANIFEST.json valid; claimed:", len(m.get('checks', [])))
 except Exception as e:
     ok = False; print("   MANIFEST.json INVALID:", str(e)[:300])
 es = json.load(open('/root/.vp/EVIDENCE.schema.json'))
